@@ -623,7 +623,18 @@ XUNDER = {'B': [2e-5, 5e-5], 'M': [[0.05, 0.05], [0.01, 0.01], [0.03, 0.08], [0.
 def t_pattern(rng, Ts, m):
     """a temperature array of length m: all equal / first = last != middle / two equal / free choice"""
     a = rng.choice(Ts); b = rng.choice([t for t in Ts if t != a])
-    pat = rng.choice(['all-equal', 'ends-equal', 'ends-equal', 'two-equal', 'random'])
+    pat = rng.choice(['all-equal', 'ends-equal', 'ends-equal', 'two-equal', 'random', 'cycle', 'cycle'])
+    if pat == 'cycle' and m >= 3 and len(set(Ts)) >= 3:
+        # pairwise different temperatures in an order that is neither sorted nor a self-inverse rearrangement of the sorted
+        # order (a 3-cycle or longer): distinguishes "results put back by the permutation" from "by its inverse"
+        k = min(m, len(set(Ts)))
+        base = sorted(rng.sample(sorted(set(Ts)), k))
+        while True:
+            perm = list(range(k)); rng.shuffle(perm)
+            if any(perm[perm[i]] != i for i in range(k)):
+                break
+        tl = [base[j] for j in perm]
+        return tl + [rng.choice(Ts) for _ in range(m - k)]
     if pat == 'all-equal':
         return [a] * m
     if pat == 'ends-equal' and m >= 3:
